@@ -80,7 +80,7 @@ func c10() int {
 					for _, fe := range []struct {
 						force bool
 						entry string
-					}{{false, "commander"}, {true, "commander"}, {false, "v2"}, {true, "v2"}, {false, "v1"}, {true, "v1"}, {false, "v2-force-false"}, {false, "v2-force-garbage"}} {
+					}{{false, "commander"}, {true, "commander"}, {false, "v2"}, {true, "v2"}, {false, "v1"}, {true, "v1"}, {false, "v2-force-false"}, {false, "v2-force-garbage"}, {false, "bulk-after-forced"}} {
 						force, entry := fe.force, fe.entry
 						if entry != "commander" && (li%4 != 0 && len(orig) < 3) {
 							continue // the HTTP entries are exercised on every fourth short list and on all long ones
@@ -107,7 +107,8 @@ func c10() int {
 						viol := func(kind, why string) {
 							rep.Violation(kind+":"+c09Shape(orig)+"/"+later.name, fmt.Sprintf("%s [original %v, a=%s b=%s, then %s, force=%v, via %s]", why, orig, ba, bb, later.name, force, entry), replay)
 						}
-						rtx, rerr := c10Revert(eng, entry, tx.ID, force, st)
+						extra := 0
+						rtx, rerr := c10Revert(eng, entry, tx.ID, force, st, &extra)
 						atomic.AddInt64(&transitions, 1)
 						// would the exact inverse overdraw somebody? (log-order replay of the inverse on the current balances)
 						cur := memstore.Fold(st.Snapshot()[:logsBefore])
@@ -134,7 +135,7 @@ func c10() int {
 						}
 						if rerr != nil {
 							atomic.AddInt64(&refused, 1)
-							if st.Len() != logsBefore {
+							if st.Len() != logsBefore+extra {
 								viol("refused-with-entry", "a refused revert left a log entry")
 							}
 							if force || !overdraws {
@@ -145,8 +146,8 @@ func c10() int {
 							if !force && overdraws {
 								viol("overdraw", "an unforced revert was accepted although it overdraws an account")
 							}
-							if st.Len() != logsBefore+1 {
-								viol("entries", fmt.Sprintf("%d entries appended by one revert", st.Len()-logsBefore))
+							if st.Len() != logsBefore+1+extra {
+								viol("entries", fmt.Sprintf("%d entries appended by one revert", st.Len()-logsBefore-extra))
 							}
 							if fmt.Sprint(rtx.Postings) != fmt.Sprint(inv) {
 								viol("not-inverse", fmt.Sprintf("revert has postings %v, the exact inverse is %v", rtx.Postings, inv))
@@ -168,10 +169,17 @@ func c10() int {
 								}
 							}
 							// once only
-							_, err2 := eng.Cmd.RevertTransaction(eng.Ctx(), command.Parameters{}, tx.ID, force)
-							atomic.AddInt64(&transitions, 1)
-							if err2 == nil {
-								viol("twice", "the same transaction was reverted a second time")
+							keys := []string{""}
+							if entry == "commander" {
+								keys = []string{"", "fresh-key-1", "fresh-key-2"}
+							}
+							for _, key := range keys {
+								_, err2 := eng.Cmd.RevertTransaction(eng.Ctx(), command.Parameters{IdempotencyKey: key}, tx.ID, true)
+								atomic.AddInt64(&transitions, 1)
+								if err2 == nil {
+									viol("twice", fmt.Sprintf("the same transaction was reverted a second time (second request with idempotency key %q)", key))
+									break
+								}
 							}
 						}
 						eng.Stop()
@@ -204,12 +212,49 @@ func inversePostings(ps ledger.Postings) ledger.Postings {
 }
 
 // c10Revert reverts through the engine API or through the HTTP endpoint that a client uses (v1: disableChecks, v2: force)
-func c10Revert(eng *engineh.Engine, entry string, id *big.Int, force bool, st *memstore.Store) (*ledger.Transaction, error) {
+func c10Revert(eng *engineh.Engine, entry string, id *big.Int, force bool, st *memstore.Store, extra *int) (*ledger.Transaction, error) {
 	if entry == "commander" {
 		return eng.Cmd.RevertTransaction(eng.Ctx(), command.Parameters{}, id, force)
 	}
 	b := recbackend.New("l1")
 	b.Ledgers["l1"].W = eng.Cmd
+	if entry == "bulk-after-forced" {
+		// an unrelated transaction, reverted with force in the element before: the flag belongs to that element only
+		other, err := eng.Cmd.CreateTransaction(eng.Ctx(), command.Parameters{}, ledger.TxToScriptData(ledger.TransactionData{Postings: ledger.Postings{ledger.NewPosting("world", "unrelated", "X", big.NewInt(1))}}, false))
+		if err != nil {
+			return nil, fmt.Errorf("harness: %w", err)
+		}
+		*extra = 2 // the unrelated transaction and its forced revert are the harness's, not part of the judged history
+		before := st.Len()
+		body := fmt.Sprintf(`[{"action":"REVERT_TRANSACTION","data":{"id":%s,"force":true}},{"action":"REVERT_TRANSACTION","data":{"id":%s}}]`, other.ID, id)
+		req := httptest.NewRequest("POST", "/api/ledger/v2/l1/_bulk?continueOnFailure=true", strings.NewReader(body)).WithContext(eng.Ctx())
+		w := httptest.NewRecorder()
+		newRouter(b, false).ServeHTTP(w, req)
+		var resp struct {
+			Data []struct {
+				ErrorCode        string `json:"errorCode"`
+				ErrorDescription string `json:"errorDescription"`
+			} `json:"data"`
+		}
+		_ = json.Unmarshal(w.Body.Bytes(), &resp)
+		if len(resp.Data) != 2 {
+			return nil, fmt.Errorf("bulk answered %d results (http %d)", len(resp.Data), w.Code)
+		}
+		logs := st.Snapshot()
+		// the harness's own forced revert is not part of the judged history: drop its entry from the store view
+		if resp.Data[0].ErrorCode != "" || len(logs) < before+1 {
+			return nil, fmt.Errorf("harness: the forced revert of the unrelated transaction failed: %s", resp.Data[0].ErrorCode)
+		}
+		_ = before
+		if resp.Data[1].ErrorCode != "" {
+			return nil, fmt.Errorf("bulk element refused: %s %s", resp.Data[1].ErrorCode, resp.Data[1].ErrorDescription)
+		}
+		logs = st.Snapshot()
+		if p, ok := logs[len(logs)-1].Data.(ledger.RevertedTransactionLogPayload); ok {
+			return p.RevertTransaction, nil
+		}
+		return nil, fmt.Errorf("bulk element accepted but the appended entry is not a revert")
+	}
 	target := "/api/ledger/v2/l1/transactions/" + id.String() + "/revert"
 	switch entry {
 	case "v1":
